@@ -7,7 +7,7 @@
      CW <lin> B <idx> <rr> <bodyid> <committed> <v:o>..   dbSetBlock
      CW <lin> R|F|X <round>                               dbSetRound / dbSetFrame / Reset
      CC <id> <lin> <k> <self> <pid:ord>.. | <body ids> => <head> <seq> <ok>
-   CC: the extracted Recovery.bootstrap is run on the database denoted by the first k entries of
+   CC: the extracted Recovery.bootstrap_cur (Bootstrap as it stands, fix d90db55 included) is run on the database denoted by the first k entries of
    the log; head/seq/ok are compared here and the resulting model state is installed as trace node
    <id> of Hgdrv, so that the o/K lines that follow compare every observable of the recovered
    implementation node with the model. *)
@@ -19,6 +19,7 @@ open Recovery
 
 let logs : (string, wr list ref) Hashtbl.t = Hashtbl.create 8      (* newest first *)
 let evtab : (string, event) Hashtbl.t = Hashtbl.create 1024
+let last_cc : string option ref = ref None       (* the previous recovery's trace node: dropped when the next one is installed *)
 
 let zs = string_of_z
 let z = z_of_string
@@ -41,7 +42,7 @@ let log_of lin = try Hashtbl.find logs lin with Not_found -> failwith ("unknown 
 
 let handle check diff (toks : string list) (raw : string) : bool =
   match toks with
-  | "H" :: _ -> Hashtbl.reset logs; Hashtbl.reset evtab; false      (* Hgdrv resets its own tables *)
+  | "H" :: _ -> Hashtbl.reset logs; Hashtbl.reset evtab; last_cc := None; false      (* Hgdrv resets its own tables *)
   | "CN" :: lin :: _ -> Hgdrv.pools_check := false; Hashtbl.replace logs lin (ref []); true
   | "CW" :: lin :: "E" :: topo :: rest ->
     let (e, _) = Hgdrv.parse_event rest in
@@ -66,11 +67,14 @@ let handle check diff (toks : string list) (raw : string) : bool =
     let l = log_of lin in
     let prefix = firstn (int_of_string k) (Stdlib.List.rev !l) in
     let d = db_of_log prefix in
-    let r = bootstrap true (z self) (map peer_of gen) (map z ids) d in
+    let r = bootstrap_cur (z self) (map peer_of gen) (map z ids) d in
     let (hd, sq) = head_seq r.br_st in
     check "CC" raw (Stdlib.String.concat " " obs)
       (Printf.sprintf "%s %s %s" (zs hd) (zs sq) (if r.br_ok then "ok" else "error"));
-    if r.br_db_block then Printf.printf "NOTE db-block-used id=%s lineage=%s k=%s\n" id lin k;
+    (* C11_redelivers: the guarded bootstrap never takes a block from the database *)
+    if r.br_db_block then diff "CC" (raw ^ " db-block") "no database block consulted" "model consulted a database block";
+    (match !last_cc with Some old -> Hashtbl.remove Hgdrv.nodes old | None -> ());
+    last_cc := Some id;
     Hashtbl.replace Hgdrv.nodes id { Hgdrv.st = r.br_st; shadow = Hashtbl.create 256; pools = NodeModel.pools0; self = self };
     true
   | _ -> false
